@@ -84,7 +84,7 @@ def subchecks(tier):
     # customers whose service has started no longer renege, also after that service is interrupted: pre-emptive priorities (three levels, so
     # that a pre-emptor can itself be pre-empted) and pre-emptive schedules at reneging nodes
     wp = {"reneging": 1.0, "priorities": 1.0, "prio_preempt": 1.0, "schedule": 0.3, "sched_preempt": 0.6, "capacity": 0.2, "batching": 0.3,
-          "cc_waiting": 0.15, "discipline": 0.2, "self_loops": 0.3, "routing_objects": 0.3, "zero_service": 0.2, "server_priority": 0.1}
+          "cc_waiting": 0.6, "discipline": 0.2, "self_loops": 0.3, "routing_objects": 0.3, "zero_service": 0.2, "server_priority": 0.1}
     renp = S.Profile(list(wp), weights=wp, required=("reneging", "priorities", "prio_preempt"), numeric="mixed", max_nodes=2, max_classes=3,
                      plans=("max_time",), horizon=(6.0, 16.0), budget=600, load="heavy", excluded=common.KNOWN_EXCLUSIONS)
 
@@ -96,6 +96,10 @@ def subchecks(tier):
         if len(set(c.get("priority", 0) for c in spec["classes"])) >= 3:
             out.append("three_priority_levels")
         return out
+    wb2 = {"baulking": 1.0, "batching": 1.0, "priorities": 1.0, "prio_preempt": 1.0, "prio_reroute": 1.0, "capacity": 0.3, "routing_objects": 0.3,
+           "self_loops": 0.3, "system_capacity": 0.1}
+    bprof2 = S.Profile(list(wb2), weights=wb2, required=("baulking", "batching", "priorities", "prio_preempt", "prio_reroute"), numeric="grid", max_nodes=2,
+                       max_classes=3, plans=("max_time",), horizon=(5.0, 14.0), budget=600, load="heavy", max_c=2)
     feed = common.slot_feed_profile("C13", downstream="int", more_weights={"reneging": 1.0, "jockeying": 0.3}, required=("slotted", "slot_capacitated", "slot_preempt", "reneging"),
                                     excluded=())
     return [
@@ -107,6 +111,9 @@ def subchecks(tier):
                         rule="reneging at nodes with pre-emptive priorities / schedules: an interrupted customer has started service and never reneges"),
         system_subcheck("reneging", ren, lambda spec: [Patience(spec)], nt_ren, classes=cl_ren, obs=False, log=True,
                         n={"quick": 7200, "thorough": 40000}, rule="logged patience vs renege/service records; overdue monitor"),
+        SubCheck("baulking_reroute", baulk_execute_factory(bprof2), strategy=S.netspec(bprof2), n={"quick": 2400, "thorough": 15000},
+                 kind="system", rule="batch arrivals with baulking functions at nodes with 're-route' pre-emption: an admitted batch member can push "
+                                     "a customer out of the node before the next member's baulking function is evaluated; same oracle"),
         SubCheck("baulking", baulk_execute_factory(bprof), strategy=S.netspec(bprof), n={"quick": 6000, "thorough": 30000},
                  kind="system", rule="baulk <=> u < p(true population); baulk record; admission otherwise"),
     ]
